@@ -16,9 +16,11 @@ What is covered (every random choice comes from the rng handed in by ./check):
 * mod 2^k: every k in 0..=BITS for 1 and 2 limbs (and the boundary k for wider ones), odd and even a, a = 0, k = 0.
 * gcd: (0,0), (0,v), (v,0), (v,v), (1,v), powers of two, (g*x*2^i, g*y*2^j) with coprime x, y for g in {1, prime, 2^t, random},
   consecutive Fibonacci numbers, neighbours, MAX; signed operands with all sign combinations incl. MIN.
-* convergence: for every inversion / gcd input the op `*.safegcd_converged` / `*.gcd_converged` re-runs the fixed-count loop
-  in the model and demands g = 0 at its end (spec = 1); on the Rust side the constant-time result is compared with the
-  run-until-g=0 vartime result, and the debug profile trips the crate's own debug_assert!(g == 0).
+* convergence (the named hypothesis `converged` of the Coq theorems): extra_check() evaluates, for EVERY generated case of an op
+  that runs safegcd, the model op `conv:<op>` = "g reached 0 within iterations(f_bits, g_bits) jumps on the (f, g) this op feeds to
+  the loop" and fails the check if it is ever not 1.  In addition the ops `*.safegcd_converged` / `*.gcd_converged` compare, on the
+  Rust side, the constant-time result with the run-until-g=0 vartime result, and the debug profile trips the crate's own
+  debug_assert!(g == 0).
 Cases wider than 2 limbs carry an unused padding operand so that the vm_compute re-evaluation inside Coq (about 2 s per
 64-bit inversion in the VM, minutes at 2048 bits) samples narrow cases only; the extracted model runs all of them.
 """
@@ -451,3 +453,44 @@ def gen(tier, rng):
             gen_mod2k(E, 'boxed', n, scale)
     gen_constmonty(E, scale)
     return E.cs
+
+# ---------------------------------------------------------------- convergence hypothesis, checked on every case
+NO_SAFEGCD = {'uint.inv_mod2k', 'uint.inv_mod2k_vartime', 'uint.inv_mod2k_full64', 'boxed.inv_mod2k', 'boxed.inv_mod2k_vartime',
+              'boxed.inv_mod2k_full64'}
+
+def extra_check(ctx):
+    """The Coq theorems about safegcd take `converged` (g = 0 after iterations(f_bits, g_bits) jumps) as a named
+    hypothesis.  For EVERY generated case of an op that runs safegcd the model op `conv:<op>` re-runs the fixed-count
+    loop on the (f, g) that op feeds to it and reports the flag; anything but 1 is a violation (the hypothesis of the
+    table theorem is false on a concrete input)."""
+    cs, seen = [], set()
+    for c in ctx.cases:
+        if c.mop in NO_SAFEGCD:
+            continue
+        k = (c.mop, c.argstr())
+        if k in seen:
+            continue
+        seen.add(k)
+        cc = Case('conv:' + c.mop, c.args, mop='conv:' + c.mop)
+        cc.id = 'v%d' % len(cs)
+        cs.append(cc)
+    res = ctx.run_model(cs)
+    viol, checked, outside = [], 0, 0
+    for cc in cs:
+        r = res.get(cc.id)
+        if not r or len(r) < 2 or r[0] in ('unsupported', 'missing') or r[0].endswith('-exn'):
+            raise RuntimeError('convergence op %s not runnable: %s' % (cc.rop, r))
+        if r[1] == 'unsupported':
+            outside += 1
+            continue
+        checked += 1
+        if r[0] != 'ok 1':
+            viol.append({'obligation': 'converged', 'kind': 'spec',
+                         'desc': 'hypothesis `converged` is FALSE: %s %s -> model reports %s (g != 0 after iterations(f_bits, g_bits) jumps)'
+                                 % (cc.rop, cc.argstr()[:300], r[0]), 'case': cc.to_json()})
+    return viol, {'obligations': 1, 'convergence_flags_checked': checked, 'convergence_flags_outside_domain': outside}
+
+ASSUMPTIONS = [
+    'convergence of the Bernstein-Yang divsteps within iterations(f_bits, g_bits) jumps (Bernstein-Yang 2019, Thm 11.2) is the named '
+    'hypothesis `converged` of the safegcd theorems; it is evaluated by the model (ops conv:<op>) on every generated safegcd case',
+]
